@@ -26,7 +26,7 @@ typedef int32_t T4;
 typedef int64_t T8;
 typedef struct { int64_t a, b, c; } T24;
 
-static int ev[32];
+static int ev[128];
 #define EV_RESET() memset(ev, 0, sizeof ev)
 static int c17_k;
 
